@@ -43,7 +43,7 @@ def run_case(ctx, rng, index, casedir):
     sit = collections.Counter()
     viol = []
     hi = 300 if ctx.tier == "quick" else rng.choice([300, 1500, 5000])
-    w = SC.build(rng, casedir, index, nrec=rng.choice([1, 3, rng.randint(4, 40), rng.randint(40, hi)]),
+    w = SC.build(rng, casedir, index, nrec=rng.choice([1, 3, rng.randint(4, 40), rng.randint(40, hi)] + ([0] if rng.random() < 0.1 else [])),
                  tags=rng.choice(["grammar", "grammar", "safe"]))
     M.CTX["sort"] = (w.g, w.tags)
     if w.mode != "plain":
@@ -108,4 +108,4 @@ def run_case(ctx, rng, index, casedir):
             viol.append({"kind": "conservation", "msg": f"{len(missing)} input records missing ({missing[:5]}), {len(dup)} emitted more than once ({dup[:5]})"})
     M.CTX.clear()
     return {"sigs": sigs, "evals": max(evals, 1), "situations": dict(sit), "violations": viol, "outcomes": outcomes,
-            "sample": {"records": len(w.lines), "mode": w.mode, "output": how, "first": w.lines[0][:200]}}
+            "sample": {"records": len(w.lines), "mode": w.mode, "output": how, "first": (w.lines[0][:200] if w.lines else None)}}
